@@ -36,6 +36,7 @@ TABLE = [
     ("InjectInitialPopulationWrapper tops the population up", "C15", "InjectInitialPopulationWrapper yielded one individual too many and raised UnboundLocalError for an empty injection list"),
     ("HalfAndHalfInitializer calls its two initialisers", "C15", "HalfAndHalfInitializer called initialisers as functions (TypeError)"),
     ("lexicase selection reshuffles the cases", "C17", "lexicase: only the first winner of a pass was filtered, later winners were drawn unfiltered"),
+    ("FullInitializer(max_depth) never exceeds max_depth", "C03", "FullInitializer(d) / PositionIndependentGrowInitializer(d) returned trees of depth d+1 on grammars where FullDecider's fallback is taken (also C04: programs outside L(G,d))"),
     ("each FitnessK column of the CSV log", "C20", "every FitnessK column of the CSV log held the last fitness component (late-binding closure)"),
     ("SimpleGP's extra CSV fields each call their own callback", "C20", "every SimpleGP csv_extra_fields column was computed with the last callback (late-binding closure)"),
 ]
